@@ -214,7 +214,7 @@ func r11_2(r *Report, p *Program, e *syncEntry) {
 }
 
 func r11_3(r *Report, p *Program) {
-	retriesReallyRetry(r, p, "R11.8", 2)
+	retriesReallyRetry(r, p, "R11.8", 1)
 	const rule = "R11.3"
 	r.Rule(rule, "endpoint selection, identity check and re-read inside the retry loop; no controller without status subresource")
 	r.Floor(rule, 6)
